@@ -336,6 +336,10 @@ func c19Gen(t *rapid.T) c19Case {
 			cpw = pw + "x"
 		case 1:
 			cpw = ""
+		case 2:
+			// a retyped password that is "nearly" the first one: other letter case, a Unicode case-fold twin, a blank
+			// around it, a cut-off copy, another normalisation of the same glyphs - all of them are mismatches
+			cpw = confirmNearMiss(pw, rapid.IntRange(0, 9).Draw(t, "cpwnear"))
 		}
 		var fields []c19Field
 		// missing fields: the key itself absent from the submission (not just empty)
@@ -425,4 +429,46 @@ func init() {
 		}
 		return c19RuleRun(c), nil
 	}
+}
+
+// confirmNearMiss: a value a sloppy comparison (case folding, trimming, normalisation, prefix) would take for pw.
+func confirmNearMiss(pw string, k int) string {
+	switch k {
+	case 0:
+		return swapCase(pw)
+	case 1:
+		return strings.ToUpper(pw)
+	case 2:
+		return strings.ToLower(pw)
+	case 3:
+		return strings.NewReplacer("k", "\u212a", "s", "\u017f", "K", "\u212a", "S", "\u017f").Replace(pw) // KELVIN SIGN, LONG S: simple-fold twins
+	case 4:
+		return pw + " "
+	case 5:
+		return " " + pw
+	case 6:
+		if len(pw) > 1 {
+			return pw[:len(pw)-1]
+		}
+		return pw + "y"
+	case 7:
+		return pw + "\x00"
+	case 8:
+		return strings.NewReplacer("\u00e4", "a\u0308", "\u00c4", "A\u0308", "a", "\u0430", "o", "\u043e").Replace(pw) // NFD spelling, Cyrillic look-alikes
+	default:
+		return pw + "\t"
+	}
+}
+
+func swapCase(s string) string {
+	b := []rune(s)
+	for i, r := range b {
+		switch {
+		case r >= 'a' && r <= 'z':
+			b[i] = r - 32
+		case r >= 'A' && r <= 'Z':
+			b[i] = r + 32
+		}
+	}
+	return string(b)
 }
